@@ -1,8 +1,13 @@
 #!/bin/bash
-# Full .vo build of the Coq development (model, proofs, props). Offline.
+# build_coq.sh                 : full .vo build of the whole development through coq_makefile + make -k (setup)
+# build_coq.sh <target.vo> ... : builds the given targets and their dependencies with plain coqc
+#                                (lib/coqbuild.py: per-file locks, no global lock)
 set -e
 cd "$(dirname "$0")/../coq"
 mkdir -p ../work
+if [ $# -gt 0 ]; then
+  exec python3 ../lib/coqbuild.py "$@"
+fi
 exec 9>../work/.coq.lock
 flock 9
 {
@@ -11,12 +16,6 @@ flock 9
   echo "-Q props SigT"
   echo "-arg -w -arg -notation-overridden,-deprecated-hint-without-locality,-deprecated-instance-without-locality"
   ls model/*.v proofs/*.v props/*.v 2>/dev/null || true
-} > _CoqProject.new
-if ! cmp -s _CoqProject.new _CoqProject 2>/dev/null; then
-  mv _CoqProject.new _CoqProject
-  coq_makefile -f _CoqProject -o Makefile >/dev/null
-else
-  rm -f _CoqProject.new
-fi
-[ -f Makefile ] || coq_makefile -f _CoqProject -o Makefile >/dev/null
-timeout ${COQ_BUILD_TIMEOUT:-3000} make -j${COQ_JOBS:-16} "$@"
+} > _CoqProject
+coq_makefile -f _CoqProject -o Makefile >/dev/null
+timeout ${COQ_BUILD_TIMEOUT:-3000} make -k -j${COQ_JOBS:-8}
